@@ -79,6 +79,8 @@ PROPS = {
         tie_filter=r'task|shape|wiring|uniques',
         harness=[sysdiff('sysdiff-tasks', ['CreatePromise', 'CreatePromiseAndTask', 'CompletePromise', 'ClaimTask', 'CompleteTask', 'HeartbeatTasks', 'CreateCallback'],
                          (30, 150), (600, 200), 'C07,C08', ['-routed', '70', '-fail', '10', '-crash', '1'], (200, 200)),
+                 sysdiff('sysdiff-tasks-lookalike', ['CreatePromise', 'CreatePromiseAndTask', 'CompletePromise', 'ClaimTask', 'CompleteTask', 'HeartbeatTasks'],
+                         (20, 150), (400, 200), 'C07,C08', ['-routed', '80', '-fail', '5', '-crash', '0', '-hostile'], (200, 200)),
                  storediff('storediff-tasks', TASK_KINDS + ['CreatePromise', 'UpdatePromise', 'CreateCallback'], (20, 30), (500, 40))],
         rule=SYS_RULE + '; 2-4 workers compete for tasks with current / stale / future counters, lease sweeps and dispatch cycles interleaved; the C07 monitor (no task disappears, counters never decrease, finished tasks never change, a claimed task changes holder only via a counter bump) runs on every committed batch; the driver additionally checks that every transaction dispatched by the model coroutines satisfies wfTx',
         assumptions=['FIFO execution of store submissions across ticks for the lease statement', 'completion requests carry a valid state'],
@@ -203,10 +205,10 @@ PROPS = {
              'over harness-owned unbuffered channels, in a child process per script; after every step the registry size and every buffer level are compared with the Lean model '
              '(Model/Poll.step); for a send the observed receiver is passed to the model, which must be able to produce it for SOME value of the random pick; at the end every client '
              'stream and the set of closed channels are compared; direct C18 monitors on the implementation: Done called exactly once, reported delivered iff exactly one stream grew by one, '
-             'receiver in the addressed group, notifications only to the exact id; a crash of the worker is a violation; busy-worker phase (implementation only, 40 trials): a same-id reconnect, then the old connection\'s disconnect issued WHILE a burst of messages keeps the worker in Process, so that the loop\'s priority branch (events found queued at the top of an iteration) is taken as well as the inner one — the replacement must stay open and receive the next message for the id; non-trivial = delivered sends + closes + refusals at the limit (counted)',
+             'receiver in the addressed group, notifications only to the exact id; a crash of the worker is a violation; http phase (implementation only): the REAL plugin — poll.New + Start: HTTP server, handler, worker — with real HTTP clients that connect as /<group>/<id>, group and id percent-encoded where needed (blank, %, /, non-ASCII, +, ? and #), a second listener of the group as a decoy: an invocation and a notification addressed to {group, id} arrive on that listener\'s stream and nowhere else; busy-worker phase (implementation only, 40 trials): a same-id reconnect, then the old connection\'s disconnect issued WHILE a burst of messages keeps the worker in Process, so that the loop\'s priority branch (events found queued at the top of an iteration) is taken as well as the inner one — the replacement must stay open and receive the next message for the id; non-trivial = delivered sends + closes + refusals at the limit (counted)',
         assumptions=['operations are serialised by the single worker goroutine (this is the mechanism of the code: all registry changes and sends happen there)',
                      'each HTTP poll request makes one connection object and asks for it to be registered once'],
-        trusted_base=['the HTTP handler around the worker (SSE framing, request context) is not modelled: `read` stands for one iteration of its loop',
+        trusted_base=['the HTTP handler around the worker (SSE framing, request context) is not modelled: `read` stands for one iteration of its loop; the handler itself is exercised by the http phase of polldiff',
                       'Model/Poll.decodeData covers flat JSON objects with string values, the literal null and undecodable text; other shapes are outside the generator',
                       'build-tag verif hook internal/app/plugins/poll/verif_hooks.go (constructs the worker with harness-owned channels; adds no behaviour)'],
     ),
